@@ -91,7 +91,7 @@ fn main() {
     let t0 = std::time::Instant::now();
     let quick = tier == "quick";
     let outcomes: Vec<Outcome> = match prop.as_str() {
-        "C20" => vec![pq::check_pq(if quick { 9 } else { 11 }), pq::check_ipq(if quick { 8 } else { 9 })],
+        "C20" => vec![pq::check_pq(if quick { 9 } else { 11 }), pq::check_ipq(if quick { 8 } else { 9 }), pq::check_pq_regimes(), pq::check_ipq_regimes()],
         "C17" => sinks::check(if quick { 7 } else { 9 }),
         "C04" => vec![inj::check(if quick { 9 } else { 11 })],
         "C07" => vec![seqfut::check(if quick { 5 } else { 7 })],
